@@ -140,7 +140,7 @@ def _handle_ConnectionUp (event):
     con = event.connection
     log.debug("Disabling flooding for %i ports", len(con.ports))
     for p in con.ports.values():
-      if p.port_no >= of.OFPP_MAX: continue
+      if p.port_no > of.OFPP_MAX: continue
       _prev[con.dpid][p.port_no] = False
       pm = of.ofp_port_mod(port_no=p.port_no,
                           hw_addr=p.hw_addr,
@@ -201,7 +201,7 @@ def _update_tree (force_dpid = None):
 
       tree_ports = [p[1] for p in ports]
       for p in con.ports.values():
-        if p.port_no < of.OFPP_MAX:
+        if p.port_no <= of.OFPP_MAX:
           flood = p.port_no in tree_ports
           if not flood:
             if core.openflow_discovery.is_edge_port(sw, p.port_no):
